@@ -49,10 +49,111 @@ func hintHosts(P *Program) []*ssa.Function {
 }
 
 type widthSite struct {
-	Site string
-	N    *big.Int // nil = not a compile-time constant
-	Expr string
+	Site      string
+	N         *big.Int // nil = not a compile-time constant
+	Expr      string
+	NonCommit bool // the width is chosen only on a branch where Chip.rangeCheckerType equals a non-commit kind
 }
+
+// guardedNonCommit reports whether block b is only reached through the true edge of `x.rangeCheckerType == K` for a
+// declared checker kind K other than the commit-based one
+func guardedNonCommit(P *Program, b *ssa.BasicBlock) bool {
+	enum := P.enumOf("goldilocks", "RangeCheckerType")
+	if enum == nil {
+		return false
+	}
+	commit, has := enum.ByName["COMMIT_RANGE_CHECKER"]
+	if !has {
+		return false
+	}
+	for c := b; c != nil && c.Idom() != nil; c = c.Idom() {
+		p := c.Idom()
+		if len(c.Preds) != 1 || c.Preds[0] != p || len(p.Instrs) == 0 {
+			continue
+		}
+		iff, ok := p.Instrs[len(p.Instrs)-1].(*ssa.If)
+		if !ok || p.Succs[0] != c {
+			continue
+		}
+		bo, ok := iff.Cond.(*ssa.BinOp)
+		if !ok || bo.Op != token.EQL {
+			continue
+		}
+		for _, pr := range [][2]ssa.Value{{bo.X, bo.Y}, {bo.Y, bo.X}} {
+			if _, ok := fieldLoad(stripCopies(pr[0]), "rangeCheckerType"); !ok {
+				continue
+			}
+			if k, ok := pr[1].(*ssa.Const); ok {
+				if n, ok := constInt(k); ok && n != commit {
+					if _, declared := enum.ByVal[n]; declared {
+						return true
+					}
+				}
+			}
+		}
+	}
+	return false
+}
+
+// widthVals resolves one width argument to the constants it can hold: conversions are looked through, a φ contributes
+// every incoming edge, a parameter is followed to the caller's call sites
+func widthVals(P *Program, caller *ssa.Function, v ssa.Value, site string, depth int, seen map[ssa.Value]bool) []widthSite {
+	for {
+		if cv, ok := v.(*ssa.Convert); ok {
+			v = cv.X
+			continue
+		}
+		if ct, ok := v.(*ssa.ChangeType); ok {
+			v = ct.X
+			continue
+		}
+		break
+	}
+	if seen[v] {
+		return nil
+	}
+	seen[v] = true
+	switch x := v.(type) {
+	case *ssa.Const:
+		if i, ok := constInt(x); ok {
+			return []widthSite{{Site: site, N: big.NewInt(i)}}
+		}
+	case *ssa.Phi:
+		var out []widthSite
+		for i, e := range x.Edges {
+			nc := guardedNonCommit(P, x.Block().Preds[i])
+			for _, w := range widthVals(P, caller, e, site, depth, seen) {
+				w.NonCommit = w.NonCommit || nc
+				out = append(out, w)
+			}
+		}
+		return out
+	case *ssa.UnOp:
+		if g, ok := x.X.(*ssa.Global); ok && x.Op == token.MUL {
+			if init, ok := P.GlobalInit(g); ok {
+				if cc, ok := init.(*ssa.Const); ok {
+					if i, ok := constInt(cc); ok {
+						return []widthSite{{Site: site + " (global " + g.Name() + ")", N: big.NewInt(i)}}
+					}
+				}
+			}
+			return []widthSite{{Site: site, Expr: "global " + g.Name() + " is re-assigned or not constant"}}
+		}
+	case *ssa.Parameter:
+		var out []widthSite
+		for pi, p := range caller.Params {
+			if p == x {
+				for _, w := range widthsReaching(P, caller, pi, depth+1) {
+					w.Site = w.Site + " → " + site
+					out = append(out, w)
+				}
+			}
+		}
+		return out
+	}
+	return []widthSite{{Site: site, Expr: v.String()}}
+}
+
 
 // widthsReaching: the constants that reach parameter idx of fn through the module's static call sites
 // (interprocedural constant propagation over direct calls; globals count only if never re-assigned).
@@ -69,49 +170,7 @@ func widthsReaching(P *Program, fn *ssa.Function, idx int, depth int) []widthSit
 					continue
 				}
 				site := P.FnName(caller) + " " + P.Pos(ins.Pos())
-				v := c.Common().Args[idx]
-				for {
-					if cv, ok := v.(*ssa.Convert); ok {
-						v = cv.X
-						continue
-					}
-					if ct, ok := v.(*ssa.ChangeType); ok {
-						v = ct.X
-						continue
-					}
-					break
-				}
-				switch x := v.(type) {
-				case *ssa.Const:
-					if i, ok := constInt(x); ok {
-						out = append(out, widthSite{Site: site, N: big.NewInt(i)})
-						continue
-					}
-				case *ssa.UnOp:
-					if g, ok := x.X.(*ssa.Global); ok && x.Op == token.MUL {
-						if init, ok := P.GlobalInit(g); ok {
-							if cc, ok := init.(*ssa.Const); ok {
-								if i, ok := constInt(cc); ok {
-									out = append(out, widthSite{Site: site + " (global " + g.Name() + ")", N: big.NewInt(i)})
-									continue
-								}
-							}
-						}
-						out = append(out, widthSite{Site: site, Expr: "global " + g.Name() + " is re-assigned or not constant"})
-						continue
-					}
-				case *ssa.Parameter:
-					for pi, p := range caller.Params {
-						if p == x {
-							for _, w := range widthsReaching(P, caller, pi, depth+1) {
-								w.Site = w.Site + " → " + site
-								out = append(out, w)
-							}
-						}
-					}
-					continue
-				}
-				out = append(out, widthSite{Site: site, Expr: v.String()})
+				out = append(out, widthVals(P, caller, c.Common().Args[idx], site, depth, map[ssa.Value]bool{})...)
 			}
 		}
 	}
@@ -127,6 +186,7 @@ type hintFacts struct {
 	sinkAt  map[string]string
 	tying   *Rec
 	missing []int
+	resolve func(vs ...*Val) (map[string]bool, Bits)
 }
 
 func limbPath(v *Val, in *Interp) (string, bool) {
@@ -191,16 +251,58 @@ func collectHintFacts(cx *Ctx, host *ssa.Function) (*Run, []*hintFacts) {
 				hf.missing = append(hf.missing, k)
 			}
 		}
-		// the equality that ties outputs to inputs
-		for _, s := range r.Recs {
-			if s.Kind != "eq" || !s.Must || len(s.Args) != 2 {
-				continue
+		// the equality that ties outputs to inputs. An output of ANOTHER hint occurring in a candidate (e.g. the
+		// product computed by a nested Mul) stands for that hint's inputs: it is resolved through the hint record.
+		// Equalities of the host's own body are preferred over those of callees (which define the callee's own
+		// hint outputs, not the host's).
+		hintByRoot := map[string]*Rec{}
+		for _, h := range r.Recs {
+			if h.Kind == "hint" {
+				nm := "?"
+				if h.HintFn != nil {
+					nm = h.HintFn.Name()
+				}
+				hintByRoot[fmt.Sprintf("H:%s@%s", nm, r.In.P.Pos(h.Site))] = h
 			}
-			d := r.In.AllDeps(s.Args[0]).Or(r.In.AllDeps(s.Args[1]))
+		}
+		resolved := func(vs ...*Val) (map[string]bool, Bits) {
 			names := map[string]bool{}
-			for _, n := range r.In.Atoms.Names(d) {
-				names[n] = true
+			var all Bits
+			var work []*Val
+			work = append(work, vs...)
+			seen := map[string]bool{hf.root: true}
+			for len(work) > 0 {
+				v := work[len(work)-1]
+				work = work[:len(work)-1]
+				d := r.In.AllDeps(v)
+				all = all.Or(d)
+				for _, n := range r.In.Atoms.Names(d) {
+					names[n] = true
+					if strings.HasPrefix(n, "H:") {
+						root := n
+						if i := strings.LastIndex(n, "#"); i > 0 {
+							root = n[:i]
+						}
+						if h := hintByRoot[root]; h != nil && !seen[root] {
+							seen[root] = true
+							work = append(work, h.Args...)
+						}
+					}
+				}
 			}
+			return names, all
+		}
+		hf.resolve = resolved
+		var cands []*Rec
+		for pass := 0; pass < 2; pass++ {
+			for _, s := range r.Recs {
+				if s.Kind == "eq" && s.Must && len(s.Args) == 2 && (len(s.Chain) == 0) == (pass == 0) {
+					cands = append(cands, s)
+				}
+			}
+		}
+		for _, s := range cands {
+			names, d := resolved(s.Args[0], s.Args[1])
 			all := true
 			for k := 0; k < rec.HintN; k++ {
 				if !names[fmt.Sprintf("%s#%d", hf.root, k)] {
@@ -340,6 +442,42 @@ func rulesC05(cx *Ctx) []Obligation {
 				continue
 			}
 			obs = append(obs, good(key, desc, r.site(hf.tying)))
+			// a Select inside the tying equality may switch it off: its condition must not be under the prover's
+			// control (it may depend on the hint's inputs, never on its outputs)
+			gkey := fmt.Sprintf("C05/R1/%s/eq-guard", hn)
+			gdesc := "where the tying equality is conditional (a Select among its operands), the condition does not depend on any output of the hint"
+			gbad := ""
+			var walk func(v *Val, depth int)
+			walk = func(v *Val, depth int) {
+				if v == nil || v.Ex == nil || depth > 12 {
+					return
+				}
+				if (v.Ex.Op == "Select" || v.Ex.Op == "Lookup2") && len(v.Ex.Args) >= 1 {
+					nc := 1
+					if v.Ex.Op == "Lookup2" {
+						nc = 2
+					}
+					for ci := 0; ci < nc && ci < len(v.Ex.Args); ci++ {
+						names, _ := hf.resolve(v.Ex.Args[ci])
+						for n := range names {
+							if strings.HasPrefix(n, hf.root+"#") {
+								gbad = "the condition of a " + v.Ex.Op + " in the tying equality depends on hint output " + n + ": the prover can switch the equality off"
+							}
+						}
+					}
+				}
+				for _, a := range v.Ex.Args {
+					walk(a, depth+1)
+				}
+			}
+			for _, side := range hf.tying.Args {
+				walk(side, 0)
+			}
+			if gbad != "" {
+				obs = append(obs, bad(gkey, gdesc, gbad, r.site(hf.tying)))
+			} else {
+				obs = append(obs, good(gkey, gdesc, r.site(hf.tying)))
+			}
 			// W1
 			hasSym := len(hf.symW) > 0
 			wkey := fmt.Sprintf("C05/W1/%s", hn)
@@ -462,7 +600,9 @@ func rulesW3(cx *Ctx, prop string) []Obligation {
 				obs = append(obs, Obligation{Key: key, Desc: desc, Status: INFO, Detail: "configuration-dependent width: " + ws.Expr + " at " + ws.Site})
 				continue
 			}
-			if new(big.Int).Mod(ws.N, big.NewInt(base)).Sign() != 0 {
+			if ws.NonCommit {
+				obs = append(obs, good(key, desc, fmt.Sprintf("%s width %s is chosen only when the checker kind is not commit-based", ws.Site, ws.N)))
+			} else if new(big.Int).Mod(ws.N, big.NewInt(base)).Sign() != 0 {
 				obs = append(obs, bad(key, desc, fmt.Sprintf("width %s is not a multiple of %d", ws.N, base), ws.Site))
 			} else {
 				obs = append(obs, good(key, desc, fmt.Sprintf("%s width %s", ws.Site, ws.N)))
